@@ -32,6 +32,8 @@ structure Reader where
   script : List IoEv
   sp : Nat := 0
   wants : List Nat := []
+  /-- buffer sizes std's `read_to_end` will ask for (environment parameter, only used by `read_to_string`) -/
+  plan : List Nat := []
 deriving Repr, Inhabited
 
 /-- `&mut dyn Write`: the bytes that reached the sink and the remaining script -/
